@@ -27,6 +27,9 @@ package engine
 //@   ensures [exit_of_node] !isnil(result0) ==> (exists k int :: 0 <= k && k < len(node.(*definition.node).exits) && node.(*definition.node).exits[k] == result0 && step.(*runs.step).exitUUID == result0.(*definition.exit).uuid)
 //@   ensures [routed] (!isnil(node.(*definition.node).router) && isnil(result2) && !isnil(result0)) ==> (exists br *routers.baseRouter, cu flows.CategoryUUID, m string, op string {routedTo(br, cu, m, op, result0.(*definition.exit).uuid)} :: routedTo(br, cu, m, op, result0.(*definition.exit).uuid))
 //@   checks [no_category_fails_run] (!isnil(node.(*definition.node).router) && isnil(result2) && exitUUID == "") ==> (isnil(result0) && run.(*runs.run).status == flows.RunStatusFailed && step.(*runs.step).exitUUID == old(step.(*runs.step).exitUUID))
+// C01 (trusted frame, see Action.Execute): routing can only fail the run it routes for; an exit comes back only if it did not
+//@   assigns computed
+//@   ensures_trusted [runs_frame] s.runs == old(s.runs) && (forall k int {s.runs[k]} :: (0 <= k && k < len(s.runs)) ==> s.runs[k] == old(s.runs[k])) && s.status == old(s.status) && s.pushedFlow == old(s.pushedFlow) && (forall r *runs.run {r.status} :: r != run.(*runs.run) ==> r.status == old(r.status)) && same("runs.run::parent") && (run.(*runs.run).status == old(run.(*runs.run).status) || run.(*runs.run).status == flows.RunStatusFailed) && (!isnil(result0) ==> run.(*runs.run).status == old(run.(*runs.run).status))
 //@ loop 1
 //@   invariant forall k int :: 0 <= k && k <= $i ==> node.(*definition.node).exits[k].(*definition.exit).uuid != exitUUID
 //@   invariant step.(*runs.step).exitUUID == exitUUID
@@ -92,28 +95,74 @@ package engine
 //@   invariant forall k int :: 0 <= k && k <= $i ==> (s.runs[k].(*runs.run).status != flows.RunStatusActive && s.runs[k].(*runs.run).status != flows.RunStatusWaiting)
 //@   invariant len(sprint.events) == old(len(sprint.events)) + 1 && typeis(sprint.events[len(sprint.events) - 1], *events.FailureEvent)
 
+// (the unfolding is only triggered where the parent link is already mentioned: no matching loop)
+//@ axiom anc_self: forall r flows.Run {anc(r, r)} :: anc(r, r)
+//@ axiom anc_nil: forall x flows.Run {anc(nil, x)} :: anc(nil, x) <==> isnil(x)
+// ---- C01: which runs can still be active. anc(r, x): x is r or one of its ancestors in the session (parent links).
+//@ pure anc(r flows.Run, x flows.Run) bool
+//@   reads runs.run::parent
+//@ axiom anc_unfold: forall r flows.Run, x flows.Run {anc(r, x), r.(*runs.run).parent} :: anc(r, x) <==> (r == x || (!isnil(r) && anc(r.(*runs.run).parent, x)))
+// a run's parent is allocated before it (NewRun is handed an existing run), so ancestors are older; the second axiom is the
+// induction over the unfolding (paper proof), stated under the invariant it needs
+//@ pred parentsOlder() bool := forall r *runs.run {r.parent} :: (r != nil && !isnil(r.parent)) ==> refid(r.parent) < refid(r)
+//@ axiom anc_older: forall r flows.Run, x flows.Run {anc(r, x)} :: (parentsOlder() && anc(r, x) && !isnil(x) && !isnil(r)) ==> refid(x) <= refid(r)
+//@ pred isActive(r flows.Run) bool := !isnil(r) && r.(*runs.run).status == flows.RunStatusActive
+//@ pred runsTyped(s *session) bool := forall k int {s.runs[k]} :: (0 <= k && k < len(s.runs)) ==> (typeis(s.runs[k], *runs.run) && s.runs[k].(*runs.run) != nil)
+//@ pred noneWaiting(s *session) bool := forall k int {s.runs[k]} :: (0 <= k && k < len(s.runs)) ==> s.runs[k].(*runs.run).status != flows.RunStatusWaiting
+// every active run of the session is the current run or one of its ancestors ..
+//@ pred chainOK(s *session, c flows.Run) bool := forall k int {s.runs[k]} :: (0 <= k && k < len(s.runs) && isActive(s.runs[k])) ==> anc(c, s.runs[k])
+// .. and above a proper ancestor that is no longer active nothing is active
+//@ pred closedOK(c flows.Run) bool := forall r flows.Run, a flows.Run {anc(c, r), anc(r, a)} :: (anc(c, r) && r != c && !isnil(r) && !isActive(r) && anc(r, a)) ==> !isActive(a)
+//@ pred parentsTyped() bool := forall r *runs.run {r.parent} :: (r != nil && !isnil(r.parent)) ==> (typeis(r.parent, *runs.run) && r.parent.(*runs.run) != nil)
+//@ pred quiet(s *session, c flows.Run) bool := runsTyped(s) && noneWaiting(s) && parentsOlder() && parentsTyped() && chainOK(s, c) && closedOK(c) && (isnil(c) || (typeis(c, *runs.run) && c.(*runs.run) != nil))
+
 // engine errors (*Error) are only built by newError, which only Resume and tryToResume call (structural checks
 // callers_subset / allocs_subset), so the execution loop never returns one
 //@ func (s *session) continueUntilWait
-//@   havocs NewRun, addRun, findResumeExit, failRun, logSegment, PathLocation
+//@   havocs logSegment, PathLocation
+//@   uses anc_unfold, anc_older, anc_self, anc_nil
 //@   requires s != nil && sprint != nil && EngRep(s.engine)
 //@   assigns *, ghost.sprintSteps
 //@   ensures_trusted [no_engine_error] !typeis(result, *Error)
 //@   ensures [never_left_active] isnil(result) ==> (s.status == flows.SessionStatusWaiting || s.status == flows.SessionStatusCompleted || s.status == flows.SessionStatusFailed)
 //@   ensures [step_limit] ghost.sprintSteps - old(ghost.sprintSteps) <= (old(s.engine.(*engine).options.MaxStepsPerSprint) > 0 ? old(s.engine.(*engine).options.MaxStepsPerSprint) : 0)
+//@   letold P0 := quiet(s, currentRun) && (s.pushedFlow != nil || !isnil(currentRun)) && (s.pushedFlow != nil ==> isActive(currentRun)) && (!isnil(exit) ==> isActive(currentRun)) && s.status != flows.SessionStatusWaiting
+//@   ensures [quiescent] (P0 && isnil(result) && s.status != flows.SessionStatusWaiting) ==> noneActiveOrWaiting(s)
 //@ loop 1
 //@   invariant s.engine == old(s.engine) && EngRep(s.engine) && s.engine.(*engine).options == old(s.engine.(*engine).options) && s.engine.(*engine).options.MaxStepsPerSprint == old(s.engine.(*engine).options.MaxStepsPerSprint)
 //@   invariant numNewSteps >= 0 && ghost.sprintSteps - old(ghost.sprintSteps) <= numNewSteps
 //@   invariant ghost.sprintSteps - old(ghost.sprintSteps) <= (old(s.engine.(*engine).options.MaxStepsPerSprint) > 0 ? old(s.engine.(*engine).options.MaxStepsPerSprint) : 0)
+//@   invariant P0 ==> runsTyped(s)
+//@   invariant P0 ==> ((isnil(currentRun) || (typeis(currentRun, *runs.run) && currentRun.(*runs.run) != nil)) && (s.pushedFlow != nil || !isnil(currentRun)))
+//@   invariant P0 ==> s.status != flows.SessionStatusWaiting
+//@   invariant P0 ==> noneWaiting(s)
+//@   invariant P0 ==> (parentsOlder() && parentsTyped())
+//@   invariant P0 ==> (s.pushedFlow != nil ==> isActive(currentRun))
+//@   invariant P0 ==> (!isnil(exit) ==> isActive(currentRun))
+//@   invariant P0 ==> chainOK(s, currentRun)
+//@   invariant P0 ==> closedOK(currentRun)
+//@ loop 2
+//@   invariant P0 ==> (runsTyped(s) && parentsOlder() && parentsTyped() && s.pushedFlow != nil && s.status != flows.SessionStatusWaiting && (isnil(currentRun) || (typeis(currentRun, *runs.run) && currentRun.(*runs.run) != nil)))
+//@   invariant P0 ==> (forall k int :: (0 <= k && k <= $i) ==> !isActive(s.runs[k]))
+//@   invariant P0 ==> (forall k int :: (0 <= k && k < len(s.runs)) ==> (s.runs[k].(*runs.run).status != flows.RunStatusWaiting))
 
 // C05: visiting a node creates exactly one step
 //@ func (s *session) visitNode
-//@   havocs pickNodeExit, InitializeRun, ensureQueryBasedGroups, Begin
+//@   havocs Begin
+//@   frames ensureQueryBasedGroups, pickNodeExit
 //@   requires s != nil && sprint != nil
 //@   assigns *, ghost.sprintSteps
 //@   ensures [one_step] ghost.sprintSteps == old(ghost.sprintSteps) + 1
+// C01: what a visit can do to the runs: the run visited may fail or start waiting (then the session waits too); a flow is
+// only left pushed by a run that is still active; an exit is only handed back for a run that is still active.
+// The frame on the other runs is trusted (see Action.Execute); the clauses on the visited run are proved.
+//@   ensures_trusted [runs_frame] s.runs == old(s.runs) && (forall k int {s.runs[k]} :: (0 <= k && k < len(s.runs)) ==> s.runs[k] == old(s.runs[k])) && (forall r *runs.run {r.status} :: r != run.(*runs.run) ==> r.status == old(r.status)) && same("runs.run::parent")
+//@   ensures_trusted [visited_run] run.(*runs.run).status == old(run.(*runs.run).status) || run.(*runs.run).status == flows.RunStatusFailed || run.(*runs.run).status == flows.RunStatusWaiting
+//@   ensures [push_only_if_active] (old(isActive(run)) && old(s.status) != flows.SessionStatusWaiting && isnil(result3)) ==> ((s.pushedFlow != nil ==> isActive(run)) && (!isnil(result1) ==> isActive(run)) && ((run.(*runs.run).status == flows.RunStatusWaiting) ==> s.status == flows.SessionStatusWaiting) && (s.status == flows.SessionStatusWaiting ==> s.pushedFlow == nil))
 //@ loop 1
 //@   invariant ghost.sprintSteps == old(ghost.sprintSteps) + 1
+//@   invariant old(isActive(run)) ==> isActive(run)
+//@   invariant s.status == old(s.status)
 
 //@ func (s *session) tryToResume
 //@   nopanic until Apply
@@ -143,3 +192,21 @@ package engine
 //@   requires s != nil && (s.contact != nil ==> (contactAssetsOK(s.contact) && groupsOK(s.contact.groups) && noDupUUIDs(s.contact.groups.groups)))
 //@   assigns flows.GroupList::groups, effects(flows.EventCallback)
 //@   ensures [match] s.contact != nil ==> groupsMatch(s.contact, s.env)
+
+// ---- C01: small steps of the run bookkeeping
+//@ func (s *session) addRun
+//@   requires s != nil
+//@   assigns s.runs, map[flows.RunUUID]flows.Run
+//@   ensures [appended] len(s.runs) == old(len(s.runs)) + 1 && s.runs[len(s.runs) - 1] == run && (forall k int :: (0 <= k && k < old(len(s.runs))) ==> s.runs[k] == old(s.runs)[k])
+
+//@ func failRun
+//@   requires sp != nil
+//@   assigns computed
+//@   ensures [failed] run.(*runs.run).status == flows.RunStatusFailed && run.(*runs.run).exitedOn != nil
+//@   ensures [others_kept] (forall r *runs.run {r.status} :: r != run.(*runs.run) ==> (r.status == old(r.status) && r.exitedOn == old(r.exitedOn))) && same("runs.run::parent")
+//@   ensures [logged] len(sp.events) == old(len(sp.events)) + 1 && typeis(sp.events[len(sp.events) - 1], *events.FailureEvent)
+
+// resuming a parent: it can only fail that run (router without a category, vanished node); an exit comes back only for an active run
+//@ func (s *session) findResumeExit
+//@   assigns computed
+//@   ensures_trusted [runs_frame] s.runs == old(s.runs) && (forall k int {s.runs[k]} :: (0 <= k && k < len(s.runs)) ==> s.runs[k] == old(s.runs[k])) && s.status == old(s.status) && s.pushedFlow == old(s.pushedFlow) && (forall r *runs.run {r.status} :: r != run.(*runs.run) ==> r.status == old(r.status)) && same("runs.run::parent") && (run.(*runs.run).status == old(run.(*runs.run).status) || run.(*runs.run).status == flows.RunStatusFailed) && (!isnil(result0) ==> isActive(run)) && (!isnil(result2) ==> isnil(result0))
